@@ -672,16 +672,16 @@ use crate::common::*;
 pub mod dm {
     use crate::common::*;
     #[derive(derive_more::Debug)]
-    pub struct Rep(pub OptProbe<2>, pub NlProbe);
+    pub struct Rep(pub Tiny, pub NlProbe);
 }
 #[allow(dead_code)]
 pub mod sd {
     use crate::common::*;
     #[derive(Debug)]
-    pub struct Rep(pub OptProbe<2>, pub NlProbe);
+    pub struct Rep(pub Tiny, pub NlProbe);
 }
 /// the identical definition deriving std's Debug, holding the same field values
-pub fn to_std(v: &dm::Rep) -> sd::Rep { sd::Rep(OptProbe::new(), NlProbe(v.1 .0)) }
+pub fn to_std(v: &dm::Rep) -> sd::Rep { sd::Rep(Tiny, NlProbe(v.1 .0)) }
 
 /// Post-condition of `<dm::Rep as Debug>::fmt` run on a fresh sink under options `o`
 pub fn post_fmt(v: &dm::Rep, o: FormattingOptions, r: &(fmt::Result, Sink)) -> bool {
@@ -695,7 +695,7 @@ pub fn fmt_contract(v: &dm::Rep, o: FormattingOptions) -> (fmt::Result, Sink) { 
 #[cfg(kani)]
 mod proofs {
     use super::*;
-    /// flat, every width and precision, every multi-line kind
+    /// flat, every width and precision
     #[kani::proof_for_contract(fmt_contract)]
     #[kani::unwind(%(unwind)d)]
     %(stub)s
@@ -703,20 +703,14 @@ mod proofs {
         let mut o = opts(false);
         o.width(Some(kani::any()));
         o.precision(Some(kani::any()));
-        // every multi-line kind on its own path
-        match kani::any::<u8>() {
-            0 => { fmt_contract(&dm::Rep(OptProbe::new(), NlProbe(0)), o); }
-            1 => { fmt_contract(&dm::Rep(OptProbe::new(), NlProbe(1)), o); }
-            2 => { fmt_contract(&dm::Rep(OptProbe::new(), NlProbe(2)), o); }
-            _ => { fmt_contract(&dm::Rep(OptProbe::new(), NlProbe(3)), o); }
-        }
+        fmt_contract(&dm::Rep(Tiny, NlProbe(3)), o);
     }
     /// through the `format_args!` machinery (what `format!("{:?} {:#?} ..", v)` runs)
     #[kani::proof]
     #[kani::unwind(%(unwind)d)]
     %(stub)s
     fn ob_write_macro() {
-        let a = dm::Rep(OptProbe::new(), NlProbe(0));
+        let a = dm::Rep(Tiny, NlProbe(0));
         let b = to_std(&a);
         let (mut sa, mut sb) = (Sink::new(), Sink::new());
         let w: usize = 5;
@@ -729,11 +723,11 @@ mod proofs {
 }
 ''' % dict(unwind=UNWIND, stub=STUB3)
     hs = [Harness("ob_contract", "#[kani::ensures(post_fmt)] on fmt_contract (thin wrapper of <dm::Rep as Debug>::fmt on a fresh sink), "
-                  "proof_for_contract; alternate=off, every width and precision, every multi-line kind", kind="contract",
+                  "proof_for_contract; alternate=off, every width and precision, field values (Tiny, NlProbe(3)) (probes without interior mutability: the contract has no modifies clause)", kind="contract",
                   fn="fmt_contract (thin wrapper of the generated <dm::Rep as Debug>::fmt)"),
           Harness("ob_write_macro", "post_same of fmt::write(format_args!(\"[{:?}|{:x?}|{:w$?}|{:#?}]\", v x4)) for dm::Rep / sd::Rep",
                   fn="generated <dm::Rep as Debug>::fmt through core::fmt::write", cover_min=1)]
-    return Program("rep_contract", "struct Rep(OptProbe<2>, NlProbe) -- representative with #[kani::ensures]", src, hs)
+    return Program("rep_contract", "struct Rep(Tiny, NlProbe) -- representative with #[kani::ensures]", src, hs)
 
 
 def family(tier, seed):
